@@ -1,0 +1,19 @@
+//go:build verif
+
+package core
+
+// CycleCheckForVerif runs the (unexported) cycle detector once over graph, exactly as
+// BuildState.checkForCycles does, and returns the reported cycle (nil when none is found).
+func CycleCheckForVerif(graph *BuildGraph) []*BuildTarget {
+	detector := cycleDetector{graph: graph}
+	if err := detector.Check(); err != nil {
+		return err.Cycle
+	}
+	return nil
+}
+
+// ResolveDependencyForVerif records dep as a resolved dependency of target, declared under dep's own
+// label. Unlike AddDependency it accepts target == dep (which provide/require resolution can produce).
+func ResolveDependencyForVerif(target, dep *BuildTarget) {
+	target.resolveDependency(dep.Label, dep)
+}
